@@ -18,8 +18,10 @@ pub enum Kind {
 /// Op codes: 0 / 1 = one full parallel group through `*_par_blocks` / `*_par_blocks_inplace`; 2 / 3 = one block through
 /// `*_block` / `*_block_inplace`; 4 / 5 = a tail of one block through `*_tail_blocks` / `*_tail_blocks_inplace`; 6 / 7 = a
 /// tail of two blocks.  Tails are capped at width-1 blocks (the trait's contract) and vanish for width 1.
+/// Adding 0x10 to an even op code (block modes only) makes that call buffer to buffer: the input is a private copy and
+/// the caller's buffer, poisoned first, is the output.
 pub fn script_op_blocks(op: u8, width: usize) -> usize {
-    match op / 2 {
+    match (op & 0x0f) / 2 {
         0 => width,
         1 => 1,
         2 => 1.min(width.saturating_sub(1)),
